@@ -904,3 +904,9 @@ Lemma L_agrees_implies_prop_ok : forall c, agrees c = true -> prop_ok c = true.
 Proof.
   intros [c|s]; cbn; [apply L_agrees_implies_prop_ok_router | apply L_agrees_implies_prop_ok_server].
 Qed.
+
+(* what the engine of server i holds when it starts = the union of the prefix-extended tables mounted on it before,
+   as the user wrote them *)
+Lemma L_bound_regs_spec : forall tables cfgs evs i,
+  bound_regs tables cfgs evs i = spec_regs tables (before_start i evs) i.
+Proof. intros. unfold bound_regs. apply L_routes_are_spec. Qed.
